@@ -308,8 +308,9 @@ func vfCheckCodecWith(c *myCodec, m proto.Message) (failure string, labels map[s
 		if _, dynamic := m.(*dynamicpb.Message); dynamic && err != nil && !same {
 			// a dynamic message with several unset required fields names whichever it meets first (map order): two calls of
 			// the underlying codec need not produce the same text
-			const pre = "proto: required field"
-			same = strings.HasPrefix(err.Error(), pre) && strings.HasPrefix(uerr.Error(), pre)
+			// (protobuf-go writes its "proto:" prefix with a space or a non-breaking space depending on the build)
+			const mark = "required field"
+			same = strings.Contains(err.Error(), mark) && strings.Contains(uerr.Error(), mark)
 		}
 		if !same {
 			return fmt.Sprintf("underlying codec fails with %v, the checksum codec returned %v", uerr, err), labels
